@@ -547,6 +547,21 @@ func TestGvcReplay(t *testing.T) {
 	}
 }
 `}})
+	clauseScenarios = append(clauseScenarios, clauseScenario{"ast.(*Taskfile).Merge", "t2.Vars", scenario{pkgRel: "", what: "a global variable of the root Taskfile overrides the vars of an include statement for the tasks of the included file",
+		src: gvcHeader + `
+func TestGvcReplay(t *testing.T) {
+	dir := t.TempDir()
+	gvcWrite(t, dir, "Taskfile.yml", "version: '3'\nsilent: true\nvars:\n  X: root-global\nincludes:\n  inc:\n    taskfile: ./inc.yml\n    vars:\n      X: from-include-statement\n")
+	gvcWrite(t, dir, "inc.yml", "version: '3'\ntasks:\n  show:\n    cmds: [\"echo {{.X}}\"]\n")
+	var out bytes.Buffer
+	if err := gvcExec(t, dir, &out, task.WithSilent(true)).Run(context.Background(), &task.Call{Task: "inc:show"}); err != nil {
+		t.Fatalf("run: %v", err)
+	}
+	if got := strings.TrimSpace(out.String()); got != "from-include-statement" {
+		t.Fatalf("GVC-REPLAY-REPRODUCED: the included task sees X=%q; the include statement passes X=from-include-statement, which ranks above the global X=root-global", got)
+	}
+}
+`}})
 	clauseScenarios = append(clauseScenarios, clauseScenario{"fingerprint.(*TimestampChecker).IsUpToDate", "genOK", scenario{pkgRel: "", what: "method timestamp: deleting the generated file does not make the task run again",
 		src: gvcHeader + `
 func TestGvcReplay(t *testing.T) {
